@@ -325,7 +325,10 @@ def run_scripts(pid, scripts, tag="main"):
 
 def judge_file(pid, ann, owner=None):
     with open(ann) as fin:
-        p = subprocess.run([DRIVER, pid], stdin=fin, stdout=subprocess.PIPE, stderr=subprocess.PIPE, text=True, timeout=3000)
+        try:
+            p = subprocess.run([DRIVER, pid], stdin=fin, stdout=subprocess.PIPE, stderr=subprocess.PIPE, text=True, timeout=900)
+        except subprocess.TimeoutExpired:
+            raise Internal("the Lean driver (judge %s) did not finish within 900 s on %s" % (pid, ann))
     if p.returncode != 0:
         raise Internal("driver failed (rc=%d): %s" % (p.returncode, p.stderr[-2000:]))
     annotated = open(ann).read().splitlines()
